@@ -77,7 +77,7 @@ func (g G) World(o WorldOpts) m.WorldM {
 	return w
 }
 
-var hostile = []string{".", "[", "(", ",", "=", "\"", "${", "::", " ", "\r", "{", "}", "]", ")", "\n", " ", "%{", "<<EOT\n", "*", "?", ":", "é", "\t", "/*", "#", "0", "a", "self.", "var.", "count.", "provider::", " :: ", "null", "\u00a0", "\\n", "[]", "()", "{}", ".0", "[*]", "f(", "fn(", ", "}
+var hostile = []string{".", "[", "(", ",", "=", "\"", "${", "::", " ", "\r", "{", "}", "]", ")", "\n", " ", "%{", "<<EOT\n", "*", "?", ":", "é", "\t", "/*", "#", "0", "a", "self.", "var.", "count.", "provider::", " :: ", "null", "\u00a0", "\\n", "[]", "()", "{}", ".0", "[*]", "f(", "fn(", ", ", "provider::aws::fo", "ns::"}
 
 // Edit applies one random edit to text: prefix truncation, or deletion /
 // duplication / replacement of a lexer token, or insertion of a hostile fragment.
